@@ -400,9 +400,9 @@ Definition v_param (n : pystr) (req : bool) : pyval :=
 Definition v_kwargs_param : pyval :=
   PStruct param_tag [(n_name, PStr n_kwargs); (n_kind, K_VKW); (n_default, param_empty)].
 
-Lemma attr_POK : inspect_attr (s2p "Parameter") (s2p "POSITIONAL_OR_KEYWORD") = Ok K_POK.
+Lemma attr_POK : inspect_attr param_tag (s2p "POSITIONAL_OR_KEYWORD") = Ok K_POK.
 Proof. reflexivity. Qed.
-Lemma attr_VKW : inspect_attr (s2p "Parameter") (s2p "VAR_KEYWORD") = Ok K_VKW.
+Lemma attr_VKW : inspect_attr param_tag (s2p "VAR_KEYWORD") = Ok K_VKW.
 Proof. reflexivity. Qed.
 Lemma kind_index_POK : kind_index K_POK = Some 1%Z. Proof. reflexivity. Qed.
 Lemma kind_index_VKW : kind_index K_VKW = Some 4%Z. Proof. reflexivity. Qed.
@@ -759,7 +759,7 @@ Proof.
       apply andb_true_iff in Hp as [_ Hp]. apply negb_true_iff in Hp. exact Hp. }
   rewrite !map_snd_uni.
   assert (Ekw : (if py_truthy (PBool addl)
-                 then t53 <- inspect_attr (s2p "Parameter") (s2p "VAR_KEYWORD");;
+                 then t53 <- inspect_attr param_tag (s2p "VAR_KEYWORD");;
                       t54 <- dv_Parameter (PStr (s2p "kwargs")) t53 None;; Ok (PList [t54])
                  else Ok (PList [])) = Ok (PList (map snd (kw_entry addl)))) by (destruct addl; reflexivity).
   rewrite Ekw. cbn [bind]. rewrite add_lists. cbn [bind]. rewrite !deref_list, add_lists. cbn [bind]. rewrite deref_list.
